@@ -248,10 +248,22 @@ package tmconsensus
 //@   ensures defined-feedback: validFeedback(result)
 
 // ---- C07: validator set equality compares the two hashes and the validator lists ----
+// valsEq names what ValidatorSlicesEqual computes (same length, and pairwise the same power and an Equal public key); the
+// contract of ValidatorSlicesEqual only introduces the name, hence trusted (slices.EqualFunc with a closure is outside the subset).
+// (valsEq is a function of the two slice values only: validator slices are not written after construction - NewValidatorSet
+// "assumes ownership over the validator slice" - so no heap dependency is declared.)
+//@ spec valsEq(a []Validator, b []Validator) bool
+//@ func ValidatorSlicesEqual
+//@   trusted
+//@   ensures result == valsEq(vs1, vs2)
+//@   ensures result ==> len(vs1) == len(vs2)
+//@   modifies nothing
 //@ func ValidatorSet.Equal
 //@   property C07
 //@   ensures equal-means-same-hashes: result ==> bytes(v.PubKeyHash) == bytes(other.PubKeyHash) && bytes(v.VotePowerHash) == bytes(other.VotePowerHash) &&
 //@       len(v.Validators) == len(other.Validators)
+//@   ensures compares-hashes-and-validator-lists: result == (bytes(v.PubKeyHash) == bytes(other.PubKeyHash) && bytes(v.VotePowerHash) == bytes(other.VotePowerHash) &&
+//@       valsEq(v.Validators, other.Validators))
 //@   modifies nothing
 
 // ---- C17/C05: the sparse form of a vote proof carries the view's height, round and one entry per target ----
